@@ -63,7 +63,7 @@ CHECKS = {
              "mappers and CoAPPairing.put_characteristics run symbolically: the request-wide status, or the status of one reply item "
              "at any position, is an arbitrary integer in +-100000 (so 0, every defined code of either sign and unknown codes are "
              "covered by the solver), reply shapes are selectors (partial, duplicated, non-dict, id-less entries, 204 vs 207); z3 "
-             "discharges the per-id outcome table and 'listeners told == accepted and readable'. BLE write path not covered.",
+             "discharges the per-id outcome table and listeners told == accepted and readable; BlePairing.put_characteristics (decorated) is driven over all permission x outcome vectors of 3 writes.",
         note="Trusted: stubs for connection/accessories (perms only), Enum lookup through the real enum module, z3. Formatting of "
              "'Unknown error code: n' is compared on the real library only.",
         design="DESIGN.md section 5 C13"),
